@@ -238,3 +238,136 @@ def h_cli(v: List[int]) -> bool:
     post: _
     """
     return vlib.untraced(_all_inputs, [int(x) for x in vlib.realize(v)])
+
+
+# ---------------------------------------------------------------- solve / repair / mutate (they run the solver loop)
+
+GEN_COMMANDS = ["solve", "repair", "mutate"]
+GEN_INPUTS = [int(x) for x in os.environ.get("VERIF_GEN_INPUTS", "0,2,3,7,11").split(",")]
+
+
+def _gen_scenario(cmd_i, gsrc, c1, c1file, inp_i, inp_file) -> bool:
+    cmd = GEN_COMMANDS[cmd_i]
+    d = tempfile.mkdtemp(prefix="c19g_", dir=WORK)
+    try:
+        argv = [cmd]
+        files = []
+        if gsrc == 0:
+            p = os.path.join(d, "g.bnf")
+            open(p, "w").write(BNF)
+            files.append(p)
+        elif gsrc == 1:
+            argv += ["--grammar", BNF]
+        elif gsrc == 2:
+            p = os.path.join(d, "g.bnf")
+            open(p, "w").write(BAD_BNF)
+            files.append(p)
+        c = CONSTRAINTS[c1]
+        ctexts = [] if c is None else [c]
+        if c is not None:
+            if c1file:
+                p = os.path.join(d, "c.isla")
+                open(p, "w").write(c)
+                files.append(p)
+            else:
+                argv += ["--constraint", c]
+        if c1 in EXT_ORACLE:
+            p = os.path.join(d, "ext.py")
+            open(p, "w").write(EXTENSION)
+            files.append(p)
+        inp = None
+        if cmd == "solve":
+            argv += ["-n", "3", "-t", "10"]
+        else:
+            inp = INPUTS[inp_i]
+            if inp_file:
+                p = os.path.join(d, "input.txt")
+                open(p, "w").write(inp)
+                files.append(p)
+            else:
+                if inp == "":
+                    raise vlib.IgnoreAttempt()
+                argv += ["--input-string", inp]
+            argv += ["-t", "5"]
+        argv += files
+        code, out, err = run_cli(argv)
+        what = "isla %s (grammar source %d, constraint %r%s)" % (cmd, gsrc, c, "" if inp is None else ", input %r as %s" % (inp, "file" if inp_file else "--input-string"))
+        if isinstance(code, str):
+            raise AssertionError("%s ended with an uncaught exception: %s" % (what, code))
+        if gsrc == 3 or (not ctexts and cmd != "solve"):      # `isla solve` works without a constraint (plain grammar-based generation)
+            if code != 2:
+                raise AssertionError("%s exited with %r, expected 2 (missing grammar / constraint); stderr: %s" % (what, code, err.strip()[-160:]))
+            return True
+        if gsrc == 2 or c1 in (3, 4, 5):
+            if code != 65 or not err.strip():
+                raise AssertionError("%s exited with %r, expected 65 with a message; stderr: %s" % (what, code, err.strip()[-160:]))
+            return True
+        if code not in (0, 1):
+            raise AssertionError("%s exited with %r; stderr: %s" % (what, code, err.strip()[-160:]))
+        if cmd == "solve":
+            for line in out.splitlines():
+                if expected_check(line, ctexts) != 0:
+                    raise AssertionError("%s printed %r, which `isla check` must reject" % (what, line))
+                code2, _, err2 = run_cli(["check", "--grammar", BNF, "--constraint", c if c is not None else "true", "--input-string", line] + [f for f in files if f.endswith("ext.py")])
+                if code2 != 0:
+                    raise AssertionError("%s printed %r, which `isla check` rejects (exit %r): %s" % (what, line, code2, err2.strip()[-100:]))
+            return True
+        inp_text = inp[:-1] if inp.endswith("\n") and inp_file else inp
+        member = True
+        try:
+            vlib.parse_tree(G, inp_text)
+        except SyntaxError:
+            member = False
+        if not member:
+            if code != 1:
+                raise AssertionError("%s exited with %r for an input outside the grammar, expected 1" % (what, code))
+            return True
+        if code == 0:
+            result = out[:-1] if out.endswith("\n") else out
+            if expected_check(result, ctexts) != 0:
+                raise AssertionError("%s printed %r, which does not satisfy the constraint" % (what, result))
+            if cmd == "repair" and expected_check(inp_text, ctexts) == 0 and result != inp_text:
+                raise AssertionError("%s changed an already valid input into %r" % (what, result))
+        return True
+    finally:
+        shutil.rmtree(d, ignore_errors=True)
+
+
+def _gen_all(v) -> bool:
+    cmd_i, gsrc, c1, c1file = v
+    n = 0
+    if cmd_i == 0:
+        _gen_scenario(cmd_i, gsrc, c1, c1file, 0, 0)
+        return True
+    for inp_i in GEN_INPUTS:
+        for inp_file in (0, 1):
+            try:
+                _gen_scenario(cmd_i, gsrc, c1, c1file, inp_i, inp_file)
+                n += 1
+            except vlib.IgnoreAttempt:
+                continue
+    return n > 0
+
+
+GEN_FIX = os.environ.get("VERIF_GEN_FIX", "")
+GEN_FIXED = dict((int(a), int(b)) for a, b in (x.split("=") for x in GEN_FIX.split(",") if x))
+
+
+def _ok_gen(v: List[int]) -> bool:
+    if len(v) != 4:
+        return False
+    lims = [3, 4, len(CONSTRAINTS), 2]
+    for i, x in enumerate(v):
+        if not (0 <= x < lims[i]):
+            return False
+        if i in GEN_FIXED and x != GEN_FIXED[i]:
+            return False
+    return True
+
+
+def h_cli_gen(v: List[int]) -> bool:
+    """
+    pre: _ok_gen(v)
+    post: _
+    """
+    return vlib.untraced(_gen_all, [int(x) for x in vlib.realize(v)])
